@@ -36,6 +36,7 @@ type simPolicy struct {
 	sessionEt   int32
 	alwaysRefer bool          // adversarial: every TGS request is answered with a referral to the next realm (cycle)
 	defaultSalt bool          // the client's key uses the default salt and parameters: no hints needed
+	grace       time.Duration // a ticket is still honoured this long after its end time (the clock skew a KDC allows)
 	backdate    time.Duration // AS: the authentication time lies this far in the past (a TGT that is nearly used up when it is issued)
 }
 
@@ -291,6 +292,7 @@ func (s *kdcSim) handleTGS(realm string, tg messages.TGSReq, raw []byte) []byte 
 	// the authenticator: key usage 7 (RFC 4120 7.5.1), under the session key of the ticket
 	pt, err := crypto.DecryptEncPart(ap.EncryptedAuthenticator, tk.key, 7)
 	if err != nil {
+		r.issues = append(r.issues, fmt.Sprintf("the authenticator does not decrypt under the session key of ticket %d with key usage 7: %v", id, err))
 		return s.krbError(r, realm, tg.ReqBody.SName, 31, nil)
 	}
 	var au types.Authenticator
@@ -310,7 +312,7 @@ func (s *kdcSim) handleTGS(realm string, tg messages.TGSReq, raw []byte) []byte 
 		r.issues = append(r.issues, "authenticator checksum does not cover the request body")
 		return s.krbError(r, realm, tg.ReqBody.SName, 41, nil)
 	}
-	if !now.Before(tk.end) {
+	if !now.Before(tk.end.Add(s.pol.grace)) {
 		return s.krbError(r, realm, tg.ReqBody.SName, 32, nil)
 	}
 	cname := types.PrincipalName{NameType: 1, NameString: tk.cname}
